@@ -147,10 +147,10 @@ Qed.
 (* the real-number meaning of Uniform::getValue() for integer bounds *)
 Definition uniform_R (a b : Z) (r : R) : R := rnd (IZR a + rnd (r * IZR (b - a))).
 
-Lemma uniform_value_spec a b v :
+Lemma uniform_value_raw_spec a b v :
   (- 2 ^ 31 <= a)%Z -> (a < b)%Z -> (b <= 2 ^ 31)%Z -> (v < 2 ^ 64)%N ->
-  B2R (uniform_value (fofZ a) (fofZ b) v) = uniform_R a b (B2R (res53 v)) /\
-  is_finite (uniform_value (fofZ a) (fofZ b) v) = true.
+  B2R (uniform_value_raw (fofZ a) (fofZ b) v) = uniform_R a b (B2R (res53 v)) /\
+  is_finite (uniform_value_raw (fofZ a) (fofZ b) v) = true.
 Proof.
   intros Ha Hab Hb Hv.
   destruct (fofZ_spec a) as [Ea Fa]; [lia|]. destruct (fofZ_spec b) as [Eb Fb]; [lia|].
@@ -160,7 +160,7 @@ Proof.
   assert (Ha' : -2147483648 <= IZR a <= 2147483648).
   { split; apply IZR_le; lia. }
   assert (B62 : bpow radix2 62 = 4611686018427387904) by reflexivity.
-  unfold uniform_value, uniform_expr, uniform_R.
+  unfold uniform_value_raw, uniform_raw, uniform_R.
   (* range = max - min *)
   pose proof (Bminus_correct prec emax Hprec Hemax mode_NE (fofZ b) (fofZ a) Fb Fa) as C.
   change (round_mode mode_NE) with ZnearestE in C. rewrite Ea, Eb, <- minus_IZR in C.
@@ -198,12 +198,12 @@ Proof.
       * rewrite (IZR_Zpower radix2) by lia. rewrite <- bpow_opp. f_equal. lia.
 Qed.
 (* ---------------- integer mode *)
-Lemma uniform_int_spec a b v :
+Lemma uniform_int_raw_spec a b v :
   (- 2 ^ 31 <= a)%Z -> (a < b)%Z -> (b <= 2 ^ 31)%Z -> (v < 2 ^ 64)%N ->
-  uniform_int (fofZ a) (fofZ b) v = Zfloor (uniform_R a b (B2R (res53 v))).
+  uniform_int_raw (fofZ a) (fofZ b) v = Zfloor (uniform_R a b (B2R (res53 v))).
 Proof.
-  intros. destruct (uniform_value_spec a b v) as [E F]; auto.
-  unfold uniform_int. rewrite floorZ_spec by assumption. now rewrite E.
+  intros. destruct (uniform_value_raw_spec a b v) as [E F]; auto.
+  unfold uniform_int_raw. rewrite floorZ_spec by assumption. now rewrite E.
 Qed.
 
 Lemma uniform_R_mono a b r1 r2 : (a < b)%Z -> r1 <= r2 -> uniform_R a b r1 <= uniform_R a b r2.
@@ -275,4 +275,56 @@ Proof.
     apply round_N_ge_midp; auto with typeclass_instances. apply fmt_1.
     rewrite pred_1. unfold u1, unit_of. rewrite bpow_m53, bpow_m64.
     assert (18446744073709550593 <= Z.of_N v)%Z as H2 by lia. apply IZR_le in H2. lra.
+Qed.
+
+
+(* ---------------- the clamped expression of commit 181ff92a *)
+Lemma uniform_R_bounds a b r : (- 2 ^ 31 <= a)%Z -> (a < b)%Z -> (b <= 2 ^ 31)%Z -> 0 <= r <= 1 ->
+  IZR a <= uniform_R a b r <= IZR b.
+Proof.
+  intros Ha Hab Hb Hr. split; [apply uniform_R_ge_min; [lia | assumption | tauto]|].
+  unfold uniform_R. apply rnd_le_generic; [apply fmt_IZR; lia|].
+  assert (L : 0 < IZR (b - a)) by (apply IZR_lt; lia).
+  assert (rnd (r * IZR (b - a)) <= IZR (b - a)).
+  { apply rnd_le_generic; [apply fmt_IZR; lia | nra]. }
+  rewrite minus_IZR in *. lra.
+Qed.
+
+Lemma uniform_value_clamped_spec a b v :
+  (- 2 ^ 31 <= a)%Z -> (a < b)%Z -> (b <= 2 ^ 31)%Z -> (v < 2 ^ 64)%N ->
+  is_finite (uniform_value (fofZ a) (fofZ b) v) = true /\
+  IZR a <= B2R (uniform_value (fofZ a) (fofZ b) v) < IZR b /\
+  (uniform_R a b (B2R (res53 v)) < IZR b ->
+     B2R (uniform_value (fofZ a) (fofZ b) v) = uniform_R a b (B2R (res53 v))).
+Proof.
+  intros Ha Hab Hb Hv.
+  destruct (uniform_value_raw_spec a b v Ha Hab Hb Hv) as [E Fin].
+  destruct (fofZ_spec a) as [Ea Fa]; [lia|]. destruct (fofZ_spec b) as [Eb Fb]; [lia|].
+  pose proof (uniform_R_bounds a b _ Ha Hab Hb (res53_unit_closed v Hv)) as Bd.
+  unfold uniform_value, uniform_expr. fold (uniform_value_raw (fofZ a) (fofZ b) v).
+  unfold fleb, fltb. rewrite Bleb_correct, Bltb_correct by assumption. rewrite Ea, Eb, E.
+  assert (Lt : Rlt_bool (IZR a) (IZR b) = true) by (apply Rlt_bool_true, IZR_lt; assumption).
+  rewrite Lt, Bool.andb_true_r.
+  destruct (Rle_bool_spec (IZR b) (uniform_R a b (B2R (res53 v)))) as [Hge|Hlt].
+  - (* clamp: the largest binary64 number below max *)
+    pose proof (Bpred_correct prec emax Hprec Hemax (fofZ b) Fb) as P. rewrite Eb in P.
+    assert (Fmb : generic_format radix2 fexp64 (IZR b)) by (apply fmt_IZR; lia).
+    assert (Fma : generic_format radix2 fexp64 (IZR a)) by (apply fmt_IZR; lia).
+    assert (Hp : IZR a <= pred radix2 fexp64 (IZR b)).
+    { apply pred_ge_gt; auto with typeclass_instances. apply IZR_lt; assumption. }
+    assert (Hp2 : pred radix2 fexp64 (IZR b) < IZR b).
+    { destruct (Z.eq_dec b 0) as [->|Nb].
+      - rewrite pred_0. change (ulp radix2 fexp64 0) with (ulp radix2 (FLT_exp (-1074) 53) 0).
+        rewrite (@ulp_FLT_0 radix2 (-1074) 53 Hprec).
+        pose proof (bpow_gt_0 radix2 (-1074)). lra.
+      - apply pred_lt_id. now apply not_0_IZR. }
+    rewrite Rlt_bool_true in P.
+    + destruct P as (P1 & P2 & _). unfold fpred. rewrite P1, P2.
+      split; [reflexivity|]. split; [split; assumption|]. intros C. lra.
+    + apply Rlt_le_trans with (IZR a); [|assumption].
+      assert (Ha' : -2147483648 <= IZR a) by (apply (IZR_le (-2147483648) a); lia).
+      apply Rlt_le_trans with (- bpow radix2 62).
+      * apply Ropp_lt_contravar, bpow_lt. reflexivity.
+      * change (bpow radix2 62) with 4611686018427387904. lra.
+  - split; [assumption|]. rewrite E. split; [split; [tauto | assumption]|]. reflexivity.
 Qed.
